@@ -474,7 +474,7 @@ class SubroutineFunctionPattern(Pattern):
     def __init__(self):
         super().__init__(
             r'^(?P<prefix>[ \t\w()=]*)?(?P<keyword>subroutine|function)[ \t]+(?P<name>\w+)\b.*?$'
-            r'(?P<spec>(?:.*?(?:^(?:abstract[ \t]+)?interface\b.*?^end[ \t]+interface)?)+)'
+            r'(?P<spec>(?:.*?(?:^(?:abstract[ \t]+)?interface\b.*?^end[ \t]*interface)?)+)'
             r'(?P<contains>^contains\n(?:'
             r'(?:[ \t\w()=]*?subroutine.*?^end[ \t]*subroutine\b(?:[ \t]\w+)?\n)|'
             r'(?:[ \t\w()=]*?function.*?^end[ \t]*function\b(?:[ \t]\w+)?\n)|'
@@ -573,7 +573,7 @@ class InterfacePattern(Pattern):
             r'^(?P<is_abstract>abstract[ \t]+)?'
             r'interface\b[ \t]*(?P<spec>\w+\b.*?$)?'
             r'(?P<body>.*?)'
-            r'^end[ \t]+interface\b[ \t]*(?P=spec)?',
+            r'^end[ \t]*interface\b[ \t]*(?P=spec)?',
             re.IGNORECASE | re.DOTALL | re.MULTILINE
         )
 
